@@ -18,8 +18,8 @@ ASSUMPTIONS = ['reference machine fjverif/machine.py is the machine definition (
 def families(tier):
     q = tier == 'quick'
     return [
-        {'name': 'guided', 'strategy': lambda: imagegen.images(), 'examples': 350 if q else 12000},
-        {'name': 'dense8', 'strategy': lambda: imagegen.dense_w8(), 'examples': 250 if q else 20000},
+        {'name': 'guided', 'strategy': lambda: imagegen.images(), 'examples': 1500 if q else 30000},
+        {'name': 'dense8', 'strategy': lambda: imagegen.dense_w8(), 'examples': 1200 if q else 60000},
     ]
 
 
